@@ -42,16 +42,27 @@ Definition is_valid_alias (t : table) (a : str) : bool :=
 
 (* strings.ToLower followed by removal of everything outside [a-z0-9], on bytes.
    U+0130 and U+212A are the only non-ASCII runes whose lower case is ASCII. *)
+Definition lower_alnum1 (b : byte) (r : str) : str :=
+  let c := b2n b in
+  if (65 <=? c) && (c <=? 90) then n2b (c + 32) :: r
+  else if ((97 <=? c) && (c <=? 122)) || ((48 <=? c) && (c <=? 57)) then b :: r
+  else r.
+
 Fixpoint lower_alnum (s : str) : str :=
   match s with
   | [] => []
-  | xc4 :: xb0 :: t => x69 :: lower_alnum t
-  | xe2 :: x84 :: xaa :: t => x6b :: lower_alnum t
   | b :: t =>
-    let c := b2n b in
-    if (65 <=? c) && (c <=? 90) then n2b (c + 32) :: lower_alnum t
-    else if ((97 <=? c) && (c <=? 122)) || ((48 <=? c) && (c <=? 57)) then b :: lower_alnum t
-    else lower_alnum t
+    match t with
+    | b1 :: t1 =>
+      if beq b xc4 && beq b1 xb0 then x69 :: lower_alnum t1
+      else match t1 with
+           | b2 :: t2 =>
+             if beq b xe2 && beq b1 x84 && beq b2 xaa then x6b :: lower_alnum t2
+             else lower_alnum1 b (lower_alnum t)
+           | [] => lower_alnum1 b (lower_alnum t)
+           end
+    | [] => lower_alnum1 b (lower_alnum t)
+    end
   end.
 
 Fixpoint drop_digits (s : str) : str :=
